@@ -6,6 +6,7 @@ import (
 	"fmt"
 	"math/rand"
 	"os"
+	"strings"
 	"time"
 
 	"github.com/wrgl/wrgl/pkg/objects"
@@ -275,15 +276,313 @@ func c19IngestError(ctx *Ctx) {
 	ctx.Emit("ingest-error", map[string]interface{}{"rows": n, "runSize": runSize}, res, true, "ingest-error")
 }
 
+// genC19Limit: few rows, with one to three cells at the length limit of the row encoding (65533,
+// 65534, 65535 bytes; sometimes 65536, which AddRow must refuse), placed in removed, kept and key
+// columns. The block output cuts removed cells out of the ENCODED row (2-byte length prefixes), the
+// row output drops them from the decoded row: both must give the same rows at the limit too.
+func genC19Limit(r *rand.Rand) *c19Input {
+	in := &c19Input{NCols: 2 + r.Intn(3)}
+	in.PK = genPK(r, in.NCols)
+	in.Removed = []int{}
+	if r.Intn(4) != 0 {
+		for c := 0; c < in.NCols; c++ {
+			if r.Intn(2) == 0 {
+				in.Removed = append(in.Removed, c)
+			}
+		}
+		if len(in.Removed) == in.NCols {
+			k := r.Intn(in.NCols)
+			in.Removed = append(in.Removed[:k], in.Removed[k+1:]...)
+		}
+		if len(in.Removed) == 0 {
+			in.Removed = []int{r.Intn(in.NCols)}
+		}
+	}
+	n := 1 + r.Intn(10)
+	t := GenTable(r, in.NCols, n, in.PK, r.Intn(3))
+	k := 1 + r.Intn(3)
+	for i := 0; i < k; i++ {
+		row := t.Rows[r.Intn(n)]
+		col := r.Intn(in.NCols)
+		if len(in.Removed) > 0 && r.Intn(2) == 0 {
+			col = in.Removed[r.Intn(len(in.Removed))]
+		}
+		l := []int{65533, 65534, 65535, 65534, 65535}[r.Intn(5)]
+		if r.Intn(12) == 0 {
+			l = 65536
+		}
+		// long common prefixes: keys that differ only in their last byte
+		fill := []string{"a", "k", "\x00", "\xff", "\""}[r.Intn(5)]
+		row[col] = strings.Repeat(fill, l-1) + []string{"a", "b", ""}[r.Intn(3)]
+		if len(row[col]) < l {
+			row[col] += fill
+		}
+	}
+	in.Rows = hxRows(t.Rows)
+	in.RunSize = genC19RunSize(r, t.Rows)
+	return in
+}
+
+// genC19RunSize: nothing spills / every row spills / 1..6 chunks
+func genC19RunSize(r *rand.Rand, rows [][]string) uint64 {
+	total := 0
+	for _, row := range rows {
+		total += 4
+		for _, c := range row {
+			total += len(c) + 2
+		}
+	}
+	switch r.Intn(4) {
+	case 0:
+		return 1 << 40
+	case 1:
+		return 1
+	default:
+		return uint64(total/(1+r.Intn(6)) + 1)
+	}
+}
+
+// --- one sorter used for several tables (Reset) ---------------------------------------------------
+//
+// pkg/doctor and pkg/ingest (re-ingest) keep ONE sorter and call Reset() before loading the next
+// table into it; the previous use may have ended anywhere: never read (loading the table failed half
+// way), read up to a cancellation, or read to the end. What the sorter emits for a table must be a
+// function of that table's rows alone, and Close() must leave no spill file behind, whatever
+// happened before.
+
+type c19Use struct {
+	NCols   int        `json:"ncols"`
+	PK      []int      `json:"pk"`
+	Removed []int      `json:"removed"`
+	Rows    [][]string `json:"rows"` // hex cells
+	// how this use ends: "abandon" (rows added, output never asked for), "cancelled-blocks" /
+	// "cancelled-rows" (output asked for under an already cancelled context: the producer stops at its
+	// first block boundary), "blocks" / "rows" (output read to the end)
+	Use string `json:"use"`
+}
+
+type c19ReuseInput struct {
+	RunSize uint64   `json:"runSize"`
+	Uses    []c19Use `json:"uses"`
+}
+
+func fileSet(dir string) map[string]bool {
+	m := map[string]bool{}
+	es, _ := os.ReadDir(dir)
+	for _, e := range es {
+		m[e.Name()] = true
+	}
+	return m
+}
+
+func c19ReuseRun(in *c19ReuseInput) Res {
+	tmp := privateTmp()
+	start := fileSet(tmp)
+	defer func() {
+		// whatever is left behind is counted below, then removed so that it cannot disturb later cases
+		for f := range fileSet(tmp) {
+			if !start[f] {
+				os.Remove(tmp + "/" + f)
+			}
+		}
+	}()
+	return Guard(func() Res {
+		s, err := sorter.NewSorter(sorter.WithRunSize(in.RunSize))
+		if err != nil {
+			return Err("new-sorter")
+		}
+		uses := []map[string]interface{}{}
+		createdBy := map[string]int{} // spill file -> index of the use that created it
+		for i, u := range in.Uses {
+			if i > 0 {
+				s.Reset()
+			}
+			cols := make([]string, u.NCols)
+			for c := range cols {
+				cols[c] = string(rune('a' + c))
+			}
+			s.SetColumns(cols)
+			s.PK = make([]uint32, len(u.PK))
+			for j, p := range u.PK {
+				s.PK[j] = uint32(p)
+			}
+			for _, row := range u.Rows {
+				if err := s.AddRow(unhexStrs(row)); err != nil {
+					return Err("addrow")
+				}
+			}
+			spilled := 0
+			for f := range fileSet(tmp) {
+				if _, ok := createdBy[f]; !ok && !start[f] {
+					createdBy[f] = i
+					spilled++
+				}
+			}
+			out := map[string]interface{}{"use": u.Use, "spilled": spilled}
+			removed := map[int]struct{}{}
+			for _, c := range u.Removed {
+				removed[c] = struct{}{}
+			}
+			if len(u.Removed) == 0 {
+				removed = nil
+			}
+			errCh := make(chan error, 4)
+			ctx, cancel := ctxHangAfter(60 * time.Second)
+			if strings.HasPrefix(u.Use, "cancelled-") {
+				cancel()
+			}
+			switch u.Use {
+			case "blocks", "cancelled-blocks":
+				blocks := []c19Block{}
+				for b := range s.SortedBlocks(ctx, removed, errCh) {
+					_, rs, err := objects.ReadBlockFrom(bytes.NewReader(b.Block))
+					if err != nil {
+						cancel()
+						return Err("block-decode")
+					}
+					if len(rs) != b.RowsCount {
+						cancel()
+						return Err("block-rowscount")
+					}
+					blocks = append(blocks, c19Block{Offset: b.Offset, PK: hxRow(b.PK), Rows: hxRows(rs)})
+				}
+				out["blocks"] = blocks
+			case "rows", "cancelled-rows":
+				rowBlocks := [][][]string{}
+				offs := []int{}
+				for rb := range s.SortedRows(ctx, removed, errCh) {
+					rowBlocks = append(rowBlocks, hxRows(rb.Rows))
+					offs = append(offs, rb.Offset)
+				}
+				out["rowBlocks"] = rowBlocks
+				out["rowOffsets"] = offs
+			}
+			hung := ctx.Err() != nil && !strings.HasPrefix(u.Use, "cancelled-")
+			cancel()
+			select {
+			case e := <-errCh:
+				return Err(fmt.Sprintf("sorted-output: %v", e))
+			default:
+			}
+			if hung {
+				return Err("hang")
+			}
+			uses = append(uses, out)
+		}
+		if err := s.Close(); err != nil {
+			return Err("close")
+		}
+		// spill files still there after Close: of the last use / of the uses before a Reset
+		leftLast, leftEarlier := 0, 0
+		for f := range fileSet(tmp) {
+			if i, ok := createdBy[f]; ok {
+				if i == len(in.Uses)-1 {
+					leftLast++
+				} else {
+					leftEarlier++
+				}
+			}
+		}
+		return Ok(map[string]interface{}{"uses": uses, "leftoverLast": leftLast, "leftoverEarlier": leftEarlier})
+	})
+}
+
+func genC19Reuse(r *rand.Rand) *c19ReuseInput {
+	in := &c19ReuseInput{}
+	nUses := 2 + r.Intn(2)
+	maxTotal := 0
+	for i := 0; i < nUses; i++ {
+		u := c19Use{NCols: 1 + r.Intn(3)}
+		u.PK = genPK(r, u.NCols)
+		u.Removed = []int{}
+		if u.NCols > 1 && r.Intn(4) == 0 {
+			u.Removed = []int{r.Intn(u.NCols)}
+		}
+		last := i == nUses-1
+		if last {
+			u.Use = []string{"blocks", "rows"}[r.Intn(2)]
+		} else {
+			u.Use = []string{"abandon", "abandon", "cancelled-blocks", "cancelled-rows", "blocks", "rows"}[r.Intn(6)]
+		}
+		n := []int{0, 1, 3, 8, 20, 60}[r.Intn(6)] + r.Intn(5)
+		if strings.HasPrefix(u.Use, "cancelled-") || r.Intn(5) == 0 {
+			// more than one block: a cancelled producer stops with rows unread in every run
+			n = 256 + r.Intn(300)
+		}
+		mode := r.Intn(3)
+		if n > 100 {
+			mode = 0
+		}
+		t := GenTable(r, u.NCols, n, u.PK, mode)
+		// every use draws from the same key space, so rows of different uses interleave and collide
+		u.Rows = hxRows(t.Rows)
+		total := 0
+		for _, row := range t.Rows {
+			total += 4
+			for _, c := range row {
+				total += len(c) + 2
+			}
+		}
+		if total > maxTotal {
+			maxTotal = total
+		}
+		in.Uses = append(in.Uses, u)
+	}
+	switch r.Intn(5) {
+	case 0:
+		in.RunSize = 1 << 40
+	case 1:
+		in.RunSize = 1
+	default:
+		in.RunSize = uint64(maxTotal/(1+r.Intn(6)) + 1)
+	}
+	return in
+}
+
+func c19ReuseEmit(ctx *Ctx, in *c19ReuseInput, tags ...string) {
+	res := c19ReuseRun(in)
+	nt := false
+	if res["res"] == "ok" {
+		us := res["val"].(map[string]interface{})["uses"].([]map[string]interface{})
+		for i, u := range us {
+			if i < len(us)-1 && u["spilled"].(int) > 0 {
+				nt = true
+				tags = append(tags, "reset-after-spill:"+u["use"].(string))
+			}
+		}
+	}
+	ctx.Emit("sort-reuse", in, res, nt, append(tags, "reuse")...)
+}
+
 func runC19(ctx *Ctx) {
 	if ctx.Idx%12 == 7 {
 		c19IngestError(ctx)
 		return
 	}
 	c19Emit(ctx, genC19(ctx.R, ctx.Thorough()))
+	// further kinds of cases, by case index and after the draws of the case above (which therefore
+	// stays what it was)
+	switch ctx.Idx % 12 {
+	case 3:
+		// (each such case carries 64 KiB cells: in the thorough tier one in six of these indices, so
+		// that the volume handed to the driver stays moderate)
+		if !ctx.Thorough() || (ctx.Idx/12)%6 == 0 {
+			c19Emit(ctx, genC19Limit(ctx.R), "limit-cell")
+		}
+	case 1, 9:
+		c19ReuseEmit(ctx, genC19Reuse(ctx.R))
+	}
 }
 
 func corpusC19(ctx *Ctx, op string, raw json.RawMessage) {
+	if op == "sort-reuse" {
+		var in c19ReuseInput
+		if err := json.Unmarshal(raw, &in); err != nil {
+			panic(err)
+		}
+		c19ReuseEmit(ctx, &in, "corpus")
+		return
+	}
 	var in c19Input
 	if err := json.Unmarshal(raw, &in); err != nil {
 		panic(err)
